@@ -5,6 +5,7 @@
    reach any wire value or machine state; (c) is compared as multisets by the check. *)
 From Coq Require Import Permutation.
 From HclV Require Import Base Expr Machine MachineSpec MachineProofs SchedSpec SchedProofs C12Lemmas TableSpec TableProofs.
+From HclV Require TextLevelSpec TextLevelProofs.
 From HclV Require OrderSpec OrderProofs DiagOrderSpec DiagOrderProofs LoopProofs RenameSpec RenameProofs.
 From HclV Require Import Generated.
 Open Scope string_scope.
@@ -147,3 +148,20 @@ Print Assumptions C12_renaming_and_the_dump.
 Theorem C12_sorter_commutes_with_renaming : RenameSpec.stmt_toposort_rename.
 Proof. exact RenameProofs.toposort_rename_holds. Qed.
 Print Assumptions C12_sorter_commutes_with_renaming.
+
+(* ---- END TO END, from the program TEXT (TextLevelSpec.v / TextLevelProofs.v): the user's file (valid
+   UTF-8) after the compiled preamble, lexed with any Unicode classification, parsed with the compiled
+   tier table, built with the compiled component table; states = those reachable by loading an
+   image and stepping.  No hypothesis a user cannot check by reading the file. ------------------- *)
+(* for any two hash orders: the same verdict, the same diagnostics as a multiset, the same program up
+   to order, the same states cycle by cycle, the same final dump, the same whole output under silent
+   options; the draft "the same whole output under every option set" is refuted (-d / trace lines
+   of one cycle come in hash order: the variation C12 allows) *)
+Theorem C12_text_level :
+  TextLevelSpec.stmt_text_hash_order_free /\ TextLevelSpec.stmt_text_accepted_under_every_hash_order /\
+  ~ TextLevelSpec.stmt_text_hash_order_same_output_draft.
+Proof.
+  split; [exact TextLevelProofs.text_hash_order_free_holds |].
+  split; [exact TextLevelProofs.text_accepted_under_every_hash_order_holds | exact TextLevelProofs.text_hash_order_same_output_draft_refuted].
+Qed.
+Print Assumptions C12_text_level.
